@@ -380,7 +380,71 @@ class SheetMove(Harness):
         got = native.unhx(r[1][0])
         return got != exp, 'observed %r expected %r' % (got, exp)
 
+SP = 'structs::spreadsheet::Spreadsheet::'
+class BookFanout(Harness):
+    name = 'book.fanout'; property_id = 'C07'
+    entry = [SP + 'insert_new_row', SP + 'insert_new_column_by_index', SP + 'remove_row', SP + 'remove_column_by_index', '<Spreadsheet as AdjustmentCoordinateWithSheet>']
+    doc = 'workbook-level insert/remove addressed to one sheet by name on a real two-sheet Spreadsheet with one cell per sheet at symbolic positions: the addressed sheet follows the reference grid, the other sheet is untouched'
+    bounds = {'sheets': ['A', 'B'], 'cells': 'one per sheet, anywhere in the grid', 'edit': 'insert/remove rows/columns, position and width symbolic over the grid'}
+    def run(self, it, ctx, res):
+        op = 'insert' if ctx.branch(ctx.sym_bool('op_insert')) else 'remove'
+        axis = 'row' if ctx.branch(ctx.sym_bool('axis_row')) else 'col'
+        target = 'A' if ctx.branch(ctx.sym_bool('edit_sheet_A')) else 'B'
+        lim = MAXR if axis == 'row' else MAXC
+        pos = {'A': (ctx.sym_int('ca', 1, MAXC), ctx.sym_int('ra', 1, MAXR)), 'B': (ctx.sym_int('cb', 1, MAXC), ctx.sym_int('rb', 1, MAXR))}
+        p = ctx.sym_int('p', 1, lim); n = ctx.sym_int('n', 1, lim)
+        k = 1 if axis == 'row' else 0
+        x = pos[target][k]
+        if op == 'insert': ctx.assume(z3.If(x >= p, x + n <= lim, True))
+        else: ctx.assume(p + n - 1 <= lim)
+        info = {'op': op, 'axis': axis, 'edited': target}
+        try:
+            book = Box_(it.call('<structs::spreadsheet::Spreadsheet as std::default::Default>::default', []))
+            for nm in ('A', 'B'):
+                wsr = it.call(SP + 'new_sheet::<&str>', [Ref(book), sref(nm)]).fields[0]
+                cell = it.call(WS + 'get_cell_mut::<(u32, u32)>', [wsr, [pos[nm][0], pos[nm][1]]])
+                it.call('structs::cell::Cell::set_value_bool', [cell, nm == 'A'])
+            fn = {('insert', 'row'): 'insert_new_row', ('insert', 'col'): 'insert_new_column_by_index', ('remove', 'row'): 'remove_row', ('remove', 'col'): 'remove_column_by_index'}[(op, axis)]
+            it.call(SP + fn, [Ref(book), sref(target), iref(p), iref(n)])
+            for nm in ('A', 'B'):
+                wsr = it.call(SP + 'get_sheet_by_name::<&str>', [Ref(book), sref(nm)])
+                if wsr.variant != 1: self.fail(ctx, res, 'sheet-kept', 'sheet %s lost' % nm, info=info); return
+                w = wsr.fields[0]
+                c, r = pos[nm]
+                if nm == target:
+                    dead = op == 'remove' and ctx.branch(z3.And(x >= p, x < p + n))
+                    mv = (lambda v: z3.If(v >= p, v + n, v)) if op == 'insert' else (lambda v: z3.If(v >= p + n, v - n, v))
+                    nc, nr = (c, mv(r)) if axis == 'row' else (mv(c), r)
+                    cnt = len(it.call(WS + 'get_cell_collection', [w]))
+                    if dead: self.oblige(ctx, res, 'edited-sheet-cell-deleted', cnt == 0, info=info); continue
+                    o = it.call(WS + 'get_cell::<(u32, u32)>', [w, [nc, nr]])
+                    self.oblige(ctx, res, 'edited-sheet-follows-grid', o.variant == 1 and cnt == 1, info=info)
+                else:
+                    o = it.call(WS + 'get_cell::<(u32, u32)>', [w, [c, r]])
+                    cnt = len(it.call(WS + 'get_cell_collection', [w]))
+                    self.oblige(ctx, res, 'other-sheet-untouched', o.variant == 1 and cnt == 1, info=info)
+        except Panic as e:
+            self.fail(ctx, res, 'no-panic', str(e), info=info)
+    def case_of(self, v):
+        m = v['model']
+        c = {'op': 'insert' if m['op_insert'] else 'remove', 'axis': 'row' if m['axis_row'] else 'col', 'edited': 'A' if m['edit_sheet_A'] else 'B', 'p': m['p'], 'n': m['n'], 'A': [m['ca'], m['ra']], 'B': [m['cb'], m['rb']], 'oblig': v['oblig']}
+        c['show'] = dict(c); return c
+    def confirm(self, case, profile):
+        r = native.run_cases([['book_fanout', case['op'], case['axis'], case['edited'], case['p'], case['n']] + case['A'] + case['B']], profile)[0]
+        if r[0] != 'ok': return True, 'workbook edit %r -> %s %s' % (case['show'], r[0], r[1])
+        k = 1 if case['axis'] == 'row' else 0; exp = {}
+        for nm in ('A', 'B'):
+            pt = list(case[nm])
+            if nm == case['edited']:
+                x = pt[k]
+                if case['op'] == 'insert': pt[k] = x + case['n'] if x >= case['p'] else x
+                elif case['p'] <= x < case['p'] + case['n']: pt = None
+                elif x >= case['p'] + case['n']: pt[k] = x - case['n']
+            exp[nm] = coord_str(pt[0], pt[1], False, False) if pt else ''
+        got = {'A': native.unhx(r[1][0]), 'B': native.unhx(r[1][1])}
+        return got != exp, 'cells after the edit %r expected %r' % (got, exp)
+
 def harnesses(tier):
-    return [Scalar(), RangeShift(tier), SheetEdit(tier), SheetMove(tier)]
+    return [Scalar(), RangeShift(tier), SheetEdit(tier), SheetMove(tier), BookFanout()]
 
 OPTIONS = {'want_smir': True}
